@@ -50,7 +50,7 @@ const COND_MAX: f64 = 1e7;
 /// number of random perturbations per fit
 const N_PERT: usize = 200;
 
-const KNOWN_NAN_SIG: &str = "enet:non-finite-output:multitask:l1-threshold-0:feature-orthogonal-to-targets";
+const KNOWN_NAN_SIG: &str = "enet:non-finite-output:multitask:l1-threshold-0:nan-hyperplane";
 const KNOWN_INTERCEPT_SIG: &str = "enet:intercept-not-jointly-optimal:nonzero-column-means:intercept=mean(y)";
 
 fn eps_of(f32_: bool) -> f64 {
@@ -268,10 +268,14 @@ fn check_enet(c: &EnetCase, obs: &mut Obs) {
         return;
     }
     if !out_finite(&out) {
-        // recognised defect: multi-task block soft threshold with l1 threshold 0 divides 0/0 when a
-        // feature is exactly orthogonal to the (partial) residual
+        // recognised defect: the multi-task block soft threshold with l1 threshold exactly 0 divides
+        // 0/0 as soon as some feature is exactly orthogonal to the partial residual (first sweep:
+        // feature uncorrelated with the targets; later sweeps: residual fitted exactly). Its
+        // necessary condition (multi-task, threshold 0) plus its symptom (NaN coefficients) select
+        // the known signature; non-finite output in any other configuration keeps the plain one.
+        let known_nan = c.multi && alpha == 0.0 && out.w.iter().any(|r| r.iter().any(|v| v.is_nan()));
         let mut orth = None;
-        if c.multi && alpha == 0.0 && out.w.iter().any(|r| r.iter().any(|v| v.is_nan())) {
+        if known_nan {
             let ybar: Vec<f64> = (0..t)
                 .map(|cc| if c.intercept { c.y.iter().map(|row| row[cc]).sum::<f64>() / nf } else { 0.0 })
                 .collect();
@@ -290,12 +294,12 @@ fn check_enet(c: &EnetCase, obs: &mut Obs) {
                 }
             }
         }
-        let sig = if orth.is_some() { KNOWN_NAN_SIG } else { "enet:non-finite-output" };
-        obs.class_if(orth.is_some(), "feature_orthogonal_to_targets_l1_threshold_0_multitask");
+        let sig = if known_nan { KNOWN_NAN_SIG } else { "enet:non-finite-output" };
+        obs.class_if(known_nan, "nan_multitask_l1_threshold_0");
         obs.fail(
             sig,
             format!(
-                "non-finite model: hyperplane {:?}, intercept {:?}, gap {}, n_steps {} (feature exactly orthogonal to the centred targets: {:?}, l1 threshold {alpha})",
+                "non-finite model: hyperplane {:?}, intercept {:?}, gap {}, n_steps {} (first feature orthogonal to the centred targets: {:?}, l1 threshold {alpha})",
                 out.w, out.b, out.gap, out.n_steps, orth
             ),
         );
@@ -799,10 +803,14 @@ pub fn property() -> Property {
             "trusted base: ndarray, the harness' own Gaussian elimination / Jacobi eigen-solver / coordinate descent (used only to propose candidate points, whose objective is evaluated from the definition)".into(),
         ],
         subs: vec![
-            prop_sub("elasticnet", 600, 16000, |t: Tier| enet_strategy(Flavor::Enet, t.pick(MAX_ITER_QUICK, MAX_ITER_THOROUGH)), check_enet).chunks(8),
-            prop_sub("multitask", 400, 11000, |t: Tier| enet_strategy(Flavor::Multi, t.pick(MAX_ITER_QUICK, MAX_ITER_THOROUGH)), check_enet).chunks(8),
-            prop_sub("ols", 400, 10000, |_t: Tier| ols_strategy(), check_ols).chunks(4),
-            prop_sub("elasticnet_f32", 100, 3000, |_t: Tier| enet_strategy(Flavor::F32, F32_ITER), check_enet).chunks(2),
+            prop_sub("elasticnet", 1600, 16000, |t: Tier| enet_strategy(Flavor::Enet, t.pick(MAX_ITER_QUICK, MAX_ITER_THOROUGH)), check_enet)
+                .chunks(8)
+                .require(&["converged_reported_by_solver", "converged_two_budget_stationary", "solution_zero_and_nonzero_rows", "row_strictly_under_threshold", "uncentred_x_with_intercept", "x_all_columns_centred"]),
+            prop_sub("multitask", 1200, 11000, |t: Tier| enet_strategy(Flavor::Multi, t.pick(MAX_ITER_QUICK, MAX_ITER_THOROUGH)), check_enet)
+                .chunks(8)
+                .require(&["converged_reported_by_solver", "converged_two_budget_stationary", "solution_zero_and_nonzero_rows", "row_strictly_under_threshold", "targets_2", "targets_3", "x_all_columns_centred"]),
+            prop_sub("ols", 800, 10000, |_t: Tier| ols_strategy(), check_ols).chunks(4).require(&["uncentred_x_with_intercept", "f32", "f64"]),
+            prop_sub("elasticnet_f32", 400, 3000, |_t: Tier| enet_strategy(Flavor::F32, F32_ITER), check_enet).chunks(2).require(&["converged_reported_by_solver"]),
         ],
     }
 }
